@@ -136,7 +136,7 @@ def check(run):
                 nfiles = max(nfiles, 3)
                 spec = {n: spec[n] for n in list(spec)[:2]}
                 nf = len(spec)
-                sizes = [[600000, 3, 50], [5, 600000, 2], [300000, 300000, 300000]][(k // 10) % 3]
+                sizes = [[600000, 3, 50], [5, 600000, 2], [300000, 300000, 300000], [262144, 131072, 7], [1, 524288, 1048576]][(k // 10) % 5]  # incl. arrays whose byte size is an exact multiple of 2^20
                 comp = ['zlib', 'blsc', None][(k // 10) % 3] if k % 20 == 4 else comp
                 run.count('multi_megabyte_invocations')
             fns, arrs = make_files(rng, d, nfiles, spec, comp, f'c{k}', sizes=sizes)
@@ -186,6 +186,25 @@ def check(run):
                     if not pipe.closed_called:
                         run.violation('pipe-not-closed', desc)
                     compare(run, pipe.getvalue(), arrs, fields, desc)
+            # the Python entry point's data_key: columns live under another tree name; a 'data' tree with same-named but different columns sits beside it
+            if k % 9 == 7:
+                import asdf as _asdf
+
+                alt = []
+                for j, a in enumerate(arrs):
+                    fn2 = os.path.join(d, f'alt{k}_{j}.asdf')
+                    decoy = {n: (np.asarray(v)[::-1].copy() + 1 if np.asarray(v).size else np.asarray(v)) for n, v in a.items()}
+                    _asdf.AsdfFile(dict(hdr=dict(x=1), header=dict(x=2), halos={n: np.ascontiguousarray(v) for n, v in a.items()}, data=decoy)).write_to(fn2)
+                    alt.append(fn2)
+                pipe = RecordingPipe()
+                run.ev()
+                run.count('data_key_invocations')
+                try:
+                    PA.unpack_to_pipe(alt, fields, data_key='halos', header_key='hdr', pipe=pipe, verbose=False)
+                except Exception as e:
+                    run.violation('pipe-raises-' + type(e).__name__, dict(error=str(e)[:200], data_key='halos', bytes_already_written=len(pipe.getvalue()), **desc))
+                else:
+                    compare(run, pipe.getvalue(), arrs, fields, dict(desc, data_key='halos'))
             # verbose mode reports to stderr only: the pipe carries the same bytes
             if k % 9 == 2:
                 import contextlib
